@@ -2,7 +2,7 @@
 import ast
 import re
 
-from ..model import AnalysisError, Model, walk_no_nested, norm_stmt, names_in
+from ..model import AnalysisError, Model, walk_no_nested, norm_stmt, names_in, unparse_x
 from ..callgraph import CallGraph
 from .. import flow, dispatch, sem
 
@@ -258,7 +258,7 @@ def check(ctx):
     specials = ["float('inf')", "float('-inf')", 'math.isnan(data)']
     first_fmt = min([n.lineno for n in walk_no_nested(f) if isinstance(n, ast.Call) and isinstance(n.func, ast.Attribute) and n.func.attr == 'format'] or [10 ** 9])
     for sp in specials:
-        hit = [n for n in walk_no_nested(f) if isinstance(n, ast.If) and sp in ast.unparse(n.test)]
+        hit = [n for n in walk_no_nested(f) if isinstance(n, ast.If) and sp in unparse_x(n.test, f)]
         ok = bool(hit) and hit[0].lineno < first_fmt
         ctx.instance('C20.R3', '%s tests %s before formatting' % (Model.qual(f), sp), 'ok' if ok else 'VIOLATION', node=f, file=F)
         if not ok:
